@@ -357,6 +357,7 @@ fn raw_db_rw(path: &Path) -> Result<RawDb, String> {
 }
 
 #[derive(Clone, Debug)]
+#[allow(dead_code)] // fields are shown through Debug in witnesses
 enum Crash {
     /// abort() at the k-th storage point of the transaction
     Hook(u64),
